@@ -45,6 +45,22 @@ def shared(kind, rec, make):
     return _share[key]
 
 
+def reseed(model, r):
+    """Same class, sizes and options as `model`, other data: every recipe's
+    seed is redrawn (objects of equal shape meet in the library's work
+    arrays and class-level tables)."""
+    m = clone(model)
+
+    def walk(d):
+        for k, v in d.items():
+            if isinstance(v, dict):
+                if isinstance(v.get("s"), int):
+                    v["s"] = r.randrange(10 ** 9)
+                walk(v)
+    walk(m)
+    return m
+
+
 def like(model, first):
     """Make `model` share grid / data / node count with `first`."""
     n = first["n"]
